@@ -133,6 +133,18 @@ def srcStep (_ : Unit) (ops : List String) (_impl : String) : Unit × String :=
         let h ← p2pke.Message.HeaderBytes m
         let b ← p2pke.Message.Body m
         return s!"{n.toNat} {showU h} {showU b}") id
+    | ["ke", "gate", i, h] =>
+      showM (do
+        let a ← p2pke.Session.canSend (i == "1") (UInt8.ofNat (natArg h))
+        let b ← p2pke.Session.canReceive (UInt8.ofNat (natArg h))
+        let c ← p2pke.Session.IsReady (i == "1") (UInt8.ofNat (natArg h))
+        pure (b2s a ++ b2s b ++ b2s c)) id
+    | ["vec", "gather", o, segs] =>
+      let v : List Go.Bytes := if segs == "-" then [] else (segs.splitOn ",").map hexU
+      showM (do
+        let n ← p2p.VecSize v
+        let b ← p2p.VecBytes (hexU o) v
+        pure s!"{n} {showU b}") id
     | ["rp", "run", lim, cs] =>
       rpRun (UInt64.ofNat (natArg lim)) { last := 0, ring := List.replicate 128 0 } (cs.splitOn ",") ""
     | ["mb", "errcode", n] => showM (mbapp.extractErrorCode (intArg n)) (fun r => s!"{r.1.toNat} {r.2}")
